@@ -94,10 +94,18 @@ def build(variant="asan", quiet=True):
         if os.path.exists(os.path.join(bdir, ".done")):
             os.utime(bdir, None)
             return bdir
-        if os.path.exists(bdir):
-            shutil.rmtree(bdir)
-        os.makedirs(bdir)
-        _do_build(variant, bdir)
+        for attempt in (1, 2):
+            if os.path.exists(bdir):
+                shutil.rmtree(bdir)
+            os.makedirs(bdir)
+            try:
+                _do_build(variant, bdir)
+                break
+            except SystemExit:
+                # one retry: a transient failure of a tool (seen once in ~300 builds) must not count as a verdict
+                if attempt == 2:
+                    raise
+                sys.stderr.write("build of %s failed, trying once more\n" % variant)
         open(os.path.join(bdir, ".done"), "w").write(hsh)
         _prune(variant, keep=bdir)
         return bdir
